@@ -28,7 +28,8 @@ RULE = (
     'before and after. Non-trivial: an injection after a modification of the source, or with a unit change, or a '
     'slice, or an import with constraints. Round 4: a source node with value and children, '
     'import-modify-reference, options and $unit given by reference, a sourced file rewritten between parses. '
-    'Distinct = distinct case JSON.'
+    'Round 8: sliced references written as modifications; hosts defined through (multi-axis) slices assigned '
+    'again. Distinct = distinct case JSON.'
 )
 ASSUMPTIONS = [
     "remote sources are immutable inside one parse: source modifications are generated for local/base sources only",
